@@ -191,6 +191,8 @@ def _run(ctx):
                 if not any(g.startswith("has_object(") and tr is False for g, tr in gs):
                     doors.append("%s (line %d)" % (F.canon_of(bb), c.ln))
     update_stores_copies_only(ctx, F)
+    default_is_new(ctx, F)
+    xref_start_from_header(ctx, F)
     ctx.ob("R-WHO", "copy-on-write-single-door", not doors, "objects are copied from the previous revisions into the update by opt_clone_object_to_new_document only", oc.where(),
            what="%s copies an object from prev_documents into new_document without asking whether the update already holds one: the copy from the old revision overwrites the newer in-memory object (the last edit does not win)" % doors)
 
@@ -212,6 +214,26 @@ def update_stores_copies_only(ctx, F):
                     fresh.append("%s (line %d): %s" % (F.canon_of(bb), c.ln, bb.sname(c.args[-1], 4)[:60]))
     ctx.ob("R-WHO", "update-stores-copies-only", not fresh, "every set_object on the update (%d) stores a copy of the object the previous revisions hold" % nset, oc.where(),
            what="an IncrementalDocument method stores something other than a copy of the old object under an id of the previous revisions (%s): after saving and reloading, the update's object shadows the old one and what it held is lost" % fresh)
+
+
+def xref_start_from_header(ctx, F):
+    """Document.xref_start is what `startxref` says, counted like every other offset from the header: it goes into /Prev of the
+    next update as it is (the reader and the incremental writer share that origin, rule prefix-bypass-accounted)."""
+    rd = F.fn("Reader::read")
+    sts = [x for x in lib.stores_to_field(rd, "xref_start", "Document")]
+    how = [rd.sname(x[2]["rv"]["o"], 8) if x[1] != "T" and "o" in x[2]["rv"] else (rd.rvname(x[2]["rv"], 8) if x[1] != "T" else "call") for x in sts]
+    ok = bool(sts) and all(re.search(r"get_xref_start\(", t) and not re.search(r"\b(Add|Sub|Mul)\(", t) for t in how)
+    ctx.ob("R-ORDER", "xref-start-as-read", ok, "Document.xref_start = get_xref_start(buffer) unchanged (%s)" % [t[:60] for t in how], rd.where(),
+           what="Reader::read stores something other than the value of `startxref` in Document.xref_start (%s): the next incremental update writes it as /Prev, which then points to the wrong place for a file with bytes in front of its header" % [t[:90] for t in how])
+
+
+def default_is_new(ctx, F):
+    """IncrementalDocument::default() is IncrementalDocument::new(): an empty history, not an update "of" an empty document
+    (new_from_prev would give the first revision a /Prev 0 pointing at the header)."""
+    db = F.fn("<IncrementalDocument as Default>::default")
+    cs = [c.cname for c in db.calls if c.local]
+    ctx.ob("R-SIB", "default-is-new|IncrementalDocument", cs == ["IncrementalDocument::new"], "Default for IncrementalDocument delegates to new() (%s)" % cs, db.where(),
+           what="<IncrementalDocument as Default>::default builds its value through %s instead of IncrementalDocument::new: the document it saves carries /Prev 0, which no cross-reference section stands at" % cs)
 
 
 def run(ctx):
